@@ -49,7 +49,12 @@ func genC13(rng *rand.Rand, c *Case) {
 		ci := rng.Intn(n)
 		switch k := rng.Intn(16); {
 		case k < 4:
-			c.Ops = append(c.Ops, Op{C: ci, K: "rename", N: []int{1 + rng.Intn(20), rng.Intn(1000)}})
+			// length 0: the user goes nameless (legal with the any-name privilege) and must still be told who joins and leaves
+			nl := 1 + rng.Intn(20)
+			if rng.Intn(4) == 0 {
+				nl = 0
+			}
+			c.Ops = append(c.Ops, Op{C: ci, K: "rename", N: []int{nl, rng.Intn(1000)}})
 		case k < 6:
 			c.Ops = append(c.Ops, Op{C: ci, K: "opts", N: []int{rng.Intn(8)}})
 		case k < 9:
@@ -313,6 +318,10 @@ func runC13(w *World) {
 				case "rename":
 					ver[idx]++
 					names[idx] = fmt.Sprintf("user%d-%s", idx, randText(orng, op.N[0]))
+					if op.N[0] == 0 {
+						names[idx] = ""
+						w.Probe("nameless_users")
+					}
 					icons[idx] = uint16(op.N[1])
 					c.Name = names[idx]
 					f := []rp.Field{rp.FS(rp.FUserName, names[idx]), rp.F16(rp.FUserIconID, icons[idx])}
